@@ -320,6 +320,20 @@ class Session:
                 if snd[7:] in names:
                     out.append(Violation('monitor-wrong-sender', 'unregistered', '%s: a message of an unregistered connection is shown to the monitor with another connection\'s name' % desc, None))
                 expected[k] += 1
+        extra0 = got - expected
+        gone = {n.hex() for n, l in run.label_of.items() if not run.is_open(l)}
+        lost_seen = Counter()
+        for k in list(extra0):
+            f0 = dict(t.split('=', 1) for t in k.split(' ') if '=' in t)
+            if f0.get('sender') == R.BUS.hex() and f0.get('member') == b'NameLost'.hex() and f0.get('dest') in gone:
+                lost_seen[(f0['dest'], f0.get('body'))] += extra0[k]
+        req = getattr(self, 'lost_required', None)
+        if req and not rules:
+            for n_ in req[1]:
+                c_ = lost_seen.get((req[0].hex(), '[s:%s]' % n_.hex()), 0)
+                self.hit('namelost-to-departed-connection')
+                if c_ != 1:
+                    out.append(Violation('monitor-missed-message' if c_ == 0 else 'monitor-duplicate', 'namelost-to-departed', '%s: the monitor saw %d NameLost(%r) signals addressed to the departing connection %r (it was the primary owner)' % (desc, c_, n_, req[0]), None))
         if got != expected:
             missing, extra = expected - got, got - expected
             if missing:
@@ -352,6 +366,7 @@ class Session:
         kind = op[0]
         desc = repr(op)
         sent = []
+        self.lost_required = None
         if kind in ('send', 'bcast'):
             self.tok += 1
             for run in (self.a, self.b):
@@ -381,6 +396,16 @@ class Session:
                 return out
         elif kind == 'disc':
             l = op[1]
+            # what the departing connection is the primary owner of (its unique name included): the bus tells it so with a
+            # NameLost per name -- addressed to a connection that is already gone, so only a monitor can see them
+            self.lost_required = None
+            if self.a.uname.get(l):
+                owned = [self.a.uname[l]]
+                for line in self.a.impl_key().split('|'):
+                    f = line.split(' ')
+                    if line.startswith('svc ') and not line.startswith('svc @') and len(f) > 2 and f[2].split(':')[0] == '@' + l:
+                        owned.append(f[1].encode())
+                self.lost_required = (self.a.uname[l], owned)
             for run in (self.a, self.b):
                 run.close_slot(l)
             if l == 'C':
@@ -494,7 +519,7 @@ class Session:
         received = []
         if self.monitor is not None:
             for l in list(self.a.inbox):
-                if l != self.monitor:
+                if l != self.monitor and not (self.refmon and l == 'R0'):     # the reference monitor is judged, it is not a witness
                     received += list(self.a.inbox[l])
             self.check_monitor(self.a, sent, received, out, desc)
         oa = self.observations(self.a, skip=('M', 'R0') if self.monitor else ())
